@@ -24,19 +24,29 @@
 (* Part 2 - the signing ceremony of one spend of the common address.       *)
 (* State s = [copy, by, pushed]:                                           *)
 (*   copy[w]  the transaction object wallet w currently has:               *)
-(*            [has: BOOLEAN, signed: set of keys whose signature it holds] *)
+(*            [has: BOOLEAN, signed: set of keys whose signature it holds, *)
+(*             body: everything a signature commits to - version,          *)
+(*             locktime, outpoints, sequences, outputs]                    *)
 (*   by[w]    history: the wallets that called sign() on the chain of      *)
 (*            copies that led to copy[w]                                   *)
 (*   pushed   some copy has been broadcast                                 *)
 (* Every action is a successor-set operator A(cfg, s, args) (empty set =   *)
 (* disabled), used by the model checker and by the trace judge alike.      *)
-(*   Propose(w)            w creates the unsigned spend                    *)
+(*   Propose(w, body)      w creates the unsigned spend; its body is the   *)
+(*                         proposer's choice (its wallet settings such as  *)
+(*                         anti-fee-sniping, and the locktime / replace-   *)
+(*                         by-fee arguments of the call, decide it)        *)
 (*   Sign(w)               w signs its copy with the key it holds          *)
 (*   HandOff(w, v, form)   w exports its copy, v imports it                *)
 (*                         form: "object" | "dict" | "file" | "raw"        *)
 (*   Send(w)               w asks for broadcast of its copy                *)
 (*   Verify(w)             w asks its copy for the verdict (no change)     *)
 (* A copy is Valid iff it holds signatures of at least m distinct keys.    *)
+(* Signatures are made over the body.  No action but Propose chooses a     *)
+(* body: signing, verifying, sending and a hand-off in any form - whatever *)
+(* the settings of the importing wallet - leave the body as it is, so that *)
+(* the digest every signature was made over is the digest of the copy it   *)
+(* travels with.                                                           *)
 (* A raw transaction is the network serialization: a complete input        *)
 (* carries exactly m signatures (CHECKMULTISIG consumes m), so a raw       *)
 (* hand-off of a copy with more than m signatures carries some m of them;  *)
@@ -80,16 +90,17 @@ TheScript(cfg, rank) == [m |-> cfg.m, keys |-> SortedKeys(1..cfg.n, rank)]
 
 \* ------------------------------------------------------------------ part 2: ceremony
 Wallets(cfg) == 1..Len(cfg.holder)
-NoCopy == [has |-> FALSE, signed |-> {}]
+NoBody == [version |-> <<>>, locktime |-> <<>>, ins |-> <<>>, outs |-> <<>>]     \* (no transaction)
+NoCopy == [has |-> FALSE, signed |-> {}, body |-> NoBody]
 InitS(cfg) == [copy |-> [w \in Wallets(cfg) |-> NoCopy], by |-> [w \in Wallets(cfg) |-> {}], pushed |-> FALSE]
 
 NSig(cp) == Cardinality(cp.signed)
 Valid(cfg, cp) == cp.has /\ NSig(cp) >= cfg.m
 Exists(s) == \E w \in DOMAIN s.copy : s.copy[w].has
 
-A_Propose(cfg, s, w) ==
+A_Propose(cfg, s, w, body) ==
     IF Exists(s) THEN {}                               \* one spend per ceremony
-    ELSE {[s EXCEPT !.copy[w] = [has |-> TRUE, signed |-> {}], !.by[w] = {}]}
+    ELSE {[s EXCEPT !.copy[w] = [has |-> TRUE, signed |-> {}, body |-> body], !.by[w] = {}]}
 
 A_Sign(cfg, s, w) ==
     IF ~s.copy[w].has THEN {}
@@ -104,7 +115,7 @@ Carried(cfg, S, form, devs) ==
 
 A_HandOff(cfg, s, w, v, form, devs) ==
     IF ~s.copy[w].has \/ w = v THEN {}
-    ELSE {[s EXCEPT !.copy[v] = [has |-> TRUE, signed |-> T], !.by[v] = s.by[w]] :
+    ELSE {[s EXCEPT !.copy[v] = [has |-> TRUE, signed |-> T, body |-> s.copy[w].body], !.by[v] = s.by[w]] :
             T \in Carried(cfg, s.copy[w].signed, form, devs)}
 
 \* Send answers with "broadcast" exactly for a valid copy
@@ -122,16 +133,17 @@ SendRaises(cfg, s, w, via, devs) == "dict-import-send-raises" \in devs /\ Valid(
 SignScrambles(cfg, s, w, via, devs) == "resign-scrambles-unattributed-signatures" \in devs /\ s.copy[w].has
                                        /\ via = "dict" /\ NSig(s.copy[w]) > cfg.m
 
-\* one event a = [op, w, v, form] ("send_to" = Propose; Sign; Send in one call of the wallet API)
+\* one event a = [op, w, v, form, body] ("send_to" = Propose; Sign; Send in one call of the wallet API; body: the body
+\* the proposer chose, used by propose / send_to only)
 Compose(F(_), S) == UNION {F(x) : x \in S}
 Act(cfg, s, a, devs) ==
-    CASE a.op = "propose" -> A_Propose(cfg, s, a.w)
+    CASE a.op = "propose" -> A_Propose(cfg, s, a.w, a.body)
       [] a.op = "sign"    -> A_Sign(cfg, s, a.w)
       [] a.op = "handoff" -> A_HandOff(cfg, s, a.w, a.v, a.form, devs)
       [] a.op = "send"    -> A_Send(cfg, s, a.w)
       [] a.op = "verify"  -> IF s.copy[a.w].has THEN {s} ELSE {}          \* asking the copy for its verdict changes nothing
       [] a.op = "send_to" -> Compose(LAMBDA s2 : A_Send(cfg, s2, a.w),
-                                     Compose(LAMBDA s1 : A_Sign(cfg, s1, a.w), A_Propose(cfg, s, a.w)))
+                                     Compose(LAMBDA s1 : A_Sign(cfg, s1, a.w), A_Propose(cfg, s, a.w, a.body)))
       [] OTHER -> {}
 \* the wallet whose copy an event leaves behind (whose observations are compared)
 TargetOf(a) == IF a.op = "handoff" THEN a.v ELSE a.w
